@@ -16,7 +16,7 @@ from supp.umsgpack import loads
 PROPERTY = 'C16'
 LEVEL = 'exploration'
 BUDGET_S = {'quick': 110, 'thorough': 1700}
-UNIT_TIMEOUT_S = 300
+UNIT_TIMEOUT_S = 900
 REMOTE_FILE = remote.__file__
 STEP_CAP = 20000
 OPCODE_FUNCS = ('prepare', 'run', '_threaded_run', '_call', 'close')
